@@ -198,6 +198,14 @@ def run_unit(name, prop, tier, seed):
         out = {}
         for x in proof_diags:
             s = U.section_at(x.line) if x.line else None
+            if s is None or s.kind != "fn":
+                # the primary span is a contract declared elsewhere (e.g. on a trait): attribute to the function shown in the snippet
+                for ln in reversed(getattr(x, "lines", [])):
+                    s2 = U.section_at(ln)
+                    if s2 is not None and s2.kind == "fn":
+                        s = s2
+                        x.line = ln
+                        break
             key = s.label if s else "?"
             out.setdefault(key, []).append((s, x))
         return out
